@@ -13,11 +13,15 @@ Record astate := mk_astate {
   a_unb : list ((Z * Z) * Z);
   a_rrd : list (Z * Z);
   a_alw : list ((Z * Z * Z) * Z);           (* (validator, owner, spender) *)
-  a_pool : list (Z * (Z * Z * Z));          (* id -> (sender, amount, fee) *)
+  a_pool : list (Z * (Z * Z * Z * bool));   (* id -> (sender, amount, fee, paid in the ERC-20) *)
   a_lasttx : Z;
-  a_bc : list (Z * (Z * Z * Z));            (* nonce -> (sender, refund, amount) *)
+  a_bc : list (Z * (Z * Z * Z * Z));        (* nonce -> (sender, refund, FX amount, ERC-20 amount) *)
   a_lastbc : Z;
-  a_switch : list string
+  a_switch : list string;
+  a_wdr : list (Z * Z);                     (* withdraw addresses that differ from the delegator *)
+  a_tok : list (Z * Z);
+  a_tka : list (Z * Z);
+  a_claims : list (Z * pclaim)
 }.
 
 Definition nacct : Z := 9.
@@ -31,13 +35,16 @@ Fixpoint look3 {A} (d : A) (l : list ((Z * Z * Z) * A)) (a b c : Z) : A :=
   match l with [] => d | ((a', b', c'), v) :: r => if Z.eqb a a' && Z.eqb b b' && Z.eqb c c' then v else look3 d r a b c end.
 
 Definition to_pst (a : astate) : pst :=
-  mkp (look1 0 (a_bal a)) (look2 0 (a_dlg a)) (look2 0 (a_rwd a)) (fun x => x)
+  mkp (look1 0 (a_bal a)) (look2 0 (a_dlg a)) (look2 0 (a_rwd a))
+      (fun x => match find (fun p => Z.eqb (fst p) x) (a_wdr a) with Some p => snd p | None => x end)
       (look3 0 (a_alw a)) (look2 0 (a_unb a))
       (fun x v => existsb (fun p => Z.eqb (fst p) x && Z.eqb (snd p) v) (a_rrd a))
       (fun v => (0 <=? v) && (v <? nval))
       (fun id => look1 None (map (fun p => (fst p, Some (snd p))) (a_pool a)) id) (a_lasttx a)
       (fun n => look1 None (map (fun p => (fst p, Some (snd p))) (a_bc a)) n) (a_lastbc a)
-      true (a_switch a).
+      true (a_switch a)
+      (look1 0 (a_tok a)) (look1 0 (a_tka a))
+      (fun n => look1 None (map (fun p => (fst p, Some (snd p))) (a_claims a)) n).
 
 Record c10_case := mk_c10_case {
   c_kind : callkind; c_static : bool; c_caller : Z; c_value : Z; c_call : call;
@@ -49,10 +56,23 @@ Fixpoint zrange (n : nat) (from : Z) : list Z :=
 Definition accts := zrange 9 0.
 Definition vals := zrange 2 0.
 
-Definition opt3_eqb (a b : option (Z * Z * Z)) : bool :=
+Definition optp_eqb (a b : option (Z * Z * Z * bool)) : bool :=
   match a, b with
   | None, None => true
-  | Some (x, y, z), Some (x', y', z') => Z.eqb x x' && Z.eqb y y' && Z.eqb z z'
+  | Some (x, y, z, t), Some (x', y', z', t') => Z.eqb x x' && Z.eqb y y' && Z.eqb z z' && Bool.eqb t t'
+  | _, _ => false
+  end.
+Definition optb_eqb (a b : option (Z * Z * Z * Z)) : bool :=
+  match a, b with
+  | None, None => true
+  | Some (x, y, z, t), Some (x', y', z', t') => Z.eqb x x' && Z.eqb y y' && Z.eqb z z' && Z.eqb t t'
+  | _, _ => false
+  end.
+Definition optc_eqb (a b : option pclaim) : bool :=
+  match a, b with
+  | None, None => true
+  | Some (PSendToFx r x), Some (PSendToFx r' x') => Z.eqb r r' && Z.eqb x x'
+  | Some (PResultOk n), Some (PResultOk n') => Z.eqb n n'
   | _, _ => false
   end.
 
@@ -64,15 +84,17 @@ Definition agree (s o : pst) (ids : list Z) : bool :=
   forallb (fun a => forallb (fun v => Z.eqb (dlg s a v) (dlg o a v) && near (rwd s a v) (rwd o a v) &&
                                       Z.eqb (unb s a v) (unb o a v) && Bool.eqb (rrd s a v) (rrd o a v)) vals) accts &&
   forallb (fun v => forallb (fun ow => forallb (fun sp => Z.eqb (alw s v ow sp) (alw o v ow sp)) accts) accts) vals &&
-  forallb (fun id => opt3_eqb (pool s id) (pool o id)) ids &&
+  forallb (fun id => optp_eqb (pool s id) (pool o id)) ids &&
   Z.eqb (next_tx s) (next_tx o) &&
-  forallb (fun n => opt3_eqb (bcalls s n) (bcalls o n)) ids &&
-  Z.eqb (next_bc s) (next_bc o).
+  forallb (fun n => optb_eqb (bcalls s n) (bcalls o n)) ids &&
+  Z.eqb (next_bc s) (next_bc o) &&
+  forallb (fun a => Z.eqb (tok s a) (tok o a) && Z.eqb (tka s a) (tka o a) && Z.eqb (wdr s a) (wdr o a)) accts &&
+  forallb (fun n => optc_eqb (claims s n) (claims o n)) (zrange 24 0).
 
 Definition c10_mismatch (c : c10_case) : bool :=
   let pre := to_pst (c_pre c) in
   let post := to_pst (c_post c) in
-  let ids := zrange 12 0 in
+  let ids := zrange 24 0 in
   match entry (c_kind c) (c_static c) (c_caller c) (c_value c) (c_call c) pre with
   | None => true
   | Some (Ok s') => negb (c_ok c && agree s' post ids)
